@@ -610,7 +610,7 @@ func runC06(c *eng.Ctx) {
 	c.Rule("R06.6", "K2")
 	if fn := c.Fn("server.(*metadataAPI).RemoveStream"); fn != nil {
 		rec := eng.BoolEdges(fn, eng.Param("recovered"), true)
-		q := &eng.PathQuery{Fn: fn, FromEdges: rec, Target: eng.IsCallTo("server.metadataAPI.deleteStream", "server.stream.Delete", "os.RemoveAll")}
+		q := &eng.PathQuery{Fn: fn, FromEdges: rec, Target: eng.IsCallTo("server.metadataAPI.deleteStream", "server.metadataAPI.deleteStreamData", "server.stream.Delete", "os.RemoveAll")}
 		w := q.Find()
 		c.Check(w == nil && len(rec) > 0, "replayed delete only tombstones", p.Pos(fn.Pos()), "on the recovered edge deleteStream / os.RemoveAll is unreachable", "a delete replayed during recovery can remove stream data (path "+w.String()+")")
 		notRec := eng.BoolEdges(fn, eng.Param("recovered"), false)
@@ -640,7 +640,7 @@ func runC06(c *eng.Ctx) {
 	if fn := c.Fn("server.(*metadataAPI).AddStream"); fn != nil {
 		// the un-tombstone branch must not delete data
 		tomb := eng.BoolEdges(fn, eng.Call(-1, "server.stream.IsTombstoned"), true)
-		q := &eng.PathQuery{Fn: fn, FromEdges: tomb, Target: eng.IsCallTo("server.stream.Delete", "server.metadataAPI.deleteStream", "os.RemoveAll")}
+		q := &eng.PathQuery{Fn: fn, FromEdges: tomb, Target: eng.IsCallTo("server.stream.Delete", "server.metadataAPI.deleteStream", "server.metadataAPI.deleteStreamData", "os.RemoveAll")}
 		w := q.Find()
 		c.Check(w == nil && len(tomb) > 0, "un-tombstone keeps the data", p.Pos(fn.Pos()), "from the tombstoned edge only Close and removeStream are reachable, never Delete", "re-creating a tombstoned stream during replay deletes its data (path "+w.String()+")")
 		// an existing, not tombstoned stream is refused
@@ -683,6 +683,8 @@ func runC06(c *eng.Ctx) {
 		c.Check(stored, "the new stream is registered under its name", p.Pos(fn.Pos()), "m.streams[protoStream.Name] = newStream(…)", "AddStream does not register the stream it built under protoStream.Name")
 	}
 	ruleCreatedStreamUsesLoggedConfig(c)
+	ruleSnapshotSkipsTombstonedStreams(c)
+	ruleRestoreDeletesStreamsMissingFromSnapshot(c)
 	// the tombstone mark is only ever set; a tombstoned stream object is never revived in place
 	if tf := p.Field("server", "stream", "tombstone"); tf != nil {
 		n := 0
